@@ -1437,11 +1437,7 @@ impl<'a, R: FileManager> FrontendCtx<'a, R> {
                 }))
             }
             RuntypeKind::Ref(r) => {
-                let map = self
-                    .partial_validators
-                    .get(r)
-                    .and_then(|it| it.as_ref())
-                    .cloned();
+                let map = self.resolve_alias(r);
                 match map {
                     Some(schema) => self.convert_partial(&schema, anchor),
                     None => self.error(
@@ -1646,16 +1642,10 @@ impl<'a, R: FileManager> FrontendCtx<'a, R> {
 
                     // follow alias chains (`type A = B; Record<A, V>`) one reference at a time;
                     // a reference that is still being defined cannot be followed any further
-                    while let RuntypeKind::Ref(r) = &key.kind {
-                        let map = self
-                            .partial_validators
-                            .get(r)
-                            .and_then(|it| it.as_ref())
-                            .cloned();
-                        match map {
-                            Some(schema) => key = schema,
-                            None => break,
-                        }
+                    if let RuntypeKind::Ref(r) = &key.kind
+                        && let Some(schema) = self.resolve_alias(r)
+                    {
+                        key = schema;
                     }
                     let key_clone = key.clone();
                     let value = type_args[1].clone();
@@ -1941,6 +1931,25 @@ impl<'a, R: FileManager> FrontendCtx<'a, R> {
             }
         }
     }
+    /// The definition behind a reference, following chains of plain aliases. `None` when the name is
+    /// still being defined or the chain leads back to itself (`type A = A`).
+    fn resolve_alias(&self, r: &RuntypeUUID) -> Option<Runtype> {
+        let mut seen: Vec<&RuntypeUUID> = vec![];
+        let mut cur = r;
+        loop {
+            if seen.contains(&cur) {
+                return None;
+            }
+            seen.push(cur);
+            match self.partial_validators.get(cur) {
+                Some(Some(next)) => match &next.kind {
+                    RuntypeKind::Ref(n) => cur = n,
+                    _ => return Some(next.clone()),
+                },
+                _ => return None,
+            }
+        }
+    }
     fn insert_definition(&mut self, addr: RuntypeUUID, schema: Runtype) -> Res<Runtype> {
         if let Some(Some(v)) = self.partial_validators.get(&addr) {
             assert_eq!(v, &schema);
@@ -1976,9 +1985,7 @@ impl<'a, R: FileManager> FrontendCtx<'a, R> {
                 Ok((first.clone(), rest.clone()))
             }
             RuntypeKind::Ref(r) => {
-                let v = self.partial_validators.get(r);
-
-                let v = v.and_then(|it| it.clone());
+                let v = self.resolve_alias(r);
                 if let Some(v) = v {
                     self.get_string_format_base_formats(&v, anchor)
                 } else {
@@ -2043,9 +2050,7 @@ impl<'a, R: FileManager> FrontendCtx<'a, R> {
                 Ok((first.clone(), rest.clone()))
             }
             RuntypeKind::Ref(r) => {
-                let v = self.partial_validators.get(r);
-
-                let v = v.and_then(|it| it.clone());
+                let v = self.resolve_alias(r);
                 if let Some(v) = v {
                     self.get_number_format_base_formats(&v, anchor)
                 } else {
@@ -2193,11 +2198,7 @@ impl<'a, R: FileManager> FrontendCtx<'a, R> {
         match arr.kind {
             RuntypeKind::Array(items) => Ok(*items),
             RuntypeKind::Ref(n) => {
-                let map = self
-                    .partial_validators
-                    .get(&n)
-                    .and_then(|it| it.as_ref())
-                    .cloned();
+                let map = self.resolve_alias(&n);
                 match map {
                     Some(schema) => self.extract_array_value(schema, span, file.clone()),
                     _ => self.error(&anchor, DiagnosticInfoMessage::ExpectedArray),
@@ -2227,11 +2228,7 @@ impl<'a, R: FileManager> FrontendCtx<'a, R> {
                 Ok(prefix_items)
             }
             RuntypeKind::Ref(n) => {
-                let map = self
-                    .partial_validators
-                    .get(&n)
-                    .and_then(|it| it.as_ref())
-                    .cloned();
+                let map = self.resolve_alias(&n);
                 match map {
                     Some(schema) => self.extract_tuple_value(schema, span, file.clone()),
                     _ => self.error(&anchor, DiagnosticInfoMessage::ExpectedTuple),
@@ -2952,8 +2949,7 @@ impl<'a, R: FileManager> FrontendCtx<'a, R> {
                 Ok(TplLitTypeItem::one_of(acc))
             }
             RuntypeKind::Ref(name) => {
-                let v = self.partial_validators.get(name);
-                let v = v.and_then(|it| it.clone());
+                let v = self.resolve_alias(name);
                 match v {
                     Some(v) => self.runtype_to_tpl_lit(span, &v, file_name.clone()),
                     None => self.error(&anchor, DiagnosticInfoMessage::CannotResolveRefToTplLit),
@@ -3106,9 +3102,7 @@ impl<'a, R: FileManager> FrontendCtx<'a, R> {
         // try to resolve syntatically
         match (&obj.kind, index) {
             (RuntypeKind::Ref(r), _) => {
-                let v = self.partial_validators.get(r);
-
-                let v = v.and_then(|it| it.clone());
+                let v = self.resolve_alias(r);
                 if let Some(v) = v {
                     return self.convert_indexed_access_syntatically(&v, index);
                 }
